@@ -380,3 +380,158 @@ Example C07_accepts_nonvacuous :
      EEnd 1 (Some (0, 0, true)); EEnd 2 (Some (1, 0, true)); EEnd 0 (Some (1, 1, true));
      ECall [0; 1; 9] 2; ERet 2; EStart 3 1 1; EEnd 3 (Some (1, 1, true))] = true.
 Proof. vm_compute. reflexivity. Qed.
+
+(* ---------------------------------------------------------------------------------------------
+   Event hooks across reloads: the SIGUSR1 handler of sigtrap_posix.go (cloneEventHooks,
+   purgeEventHooks, EmitEvent(InstanceRestartEvent), Restart, restoreEventHooks on error) and
+   Restart's own clone / restore in startWithListenerFds, over EVERY sequence of reloads
+   ([hrun (hinit names0) cs]: any hook names for the first configuration, any list of calls,
+   each through the signal handler or direct, with any hook names, valid or failing). *)
+
+(* A reload that fails, by whichever path and for whichever reason (also a hook name that is
+   already registered: RegisterEventHook panics, Restart recovers), leaves the registry, the
+   generation in force and its hooks exactly as they were. *)
+Theorem C07_hooks_failed_reload_unchanged :
+  forall s c, snd (hreload s c) = false ->
+  hs_reg (fst (hreload s c)) = hs_reg s /\ hs_cur (fst (hreload s c)) = hs_cur s
+  /\ hs_names (fst (hreload s c)) = hs_names s /\ hs_okg (fst (hreload s c)) = hs_okg s.
+Proof. exact hreload_failed_unchanged. Qed.
+Print Assumptions C07_hooks_failed_reload_unchanged.
+
+Example C07_hooks_failed_reload_unchanged_nonvacuous :
+  (* a failing configuration registers hook 7 before it fails; through the handler and direct *)
+  snd (hreload (hinit [0; 1]) {| hc_sig := true; hc_names := [7]; hc_fate := 1 |}) = false /\
+  snd (hreload (hinit [0; 1]) {| hc_sig := false; hc_names := [7]; hc_fate := 3 |}) = false /\
+  (* a valid configuration that re-uses a registered name, direct call: panic, recovered *)
+  snd (hreload (hinit [0; 1]) {| hc_sig := false; hc_names := [1]; hc_fate := 0 |}) = false.
+Proof. vm_compute. auto. Qed.
+
+(* Whatever the history, every hook in the registry was registered by a configuration that was
+   started successfully (the first one or one whose reload returned success): nothing of a
+   rejected configuration stays behind. *)
+Theorem C07_hooks_owned_by_started :
+  forall names0 cs p,
+  In p (hs_reg (hrun (hinit names0) cs)) -> In (snd p) (hs_okg (hrun (hinit names0) cs)).
+Proof. exact hooks_owned_by_started. Qed.
+Print Assumptions C07_hooks_owned_by_started.
+
+Theorem C07_hooks_started_generations :
+  forall s c g, In g (hs_okg (fst (hreload s c))) ->
+  In g (hs_okg s) \/ (g = S (hs_calls s) /\ snd (hreload s c) = true).
+Proof. exact hokg_bound. Qed.
+Print Assumptions C07_hooks_started_generations.
+
+(* Reloads through the SIGUSR1 handler: after ANY sequence of them, successful and failed in any
+   order, the registry is exactly the hooks of the configuration in force, registered by it. *)
+Theorem C07_hooks_sigusr1_exactly_current :
+  forall names0 cs, forallb hc_sig cs = true ->
+  let s := hrun (hinit names0) cs in hs_reg s = map (fun x => (x, hs_cur s)) (hs_names s).
+Proof. exact hooks_sigusr1_exactly_current. Qed.
+Print Assumptions C07_hooks_sigusr1_exactly_current.
+
+Example C07_hooks_sigusr1_exactly_current_nonvacuous :
+  let s := hrun (hinit [0; 1]) [{| hc_sig := true; hc_names := [2; 3]; hc_fate := 0 |};
+                                {| hc_sig := true; hc_names := [4]; hc_fate := 1 |};
+                                {| hc_sig := true; hc_names := [0]; hc_fate := 0 |}] in
+  hs_reg s = [(0, 3)] /\ hs_cur s = 3 /\ hs_okg s = [3; 1; 0].
+Proof. vm_compute. auto. Qed.
+
+(* ... and a valid configuration with distinct hook names is always taken over by that path
+   (the purge has emptied the registry: no name can clash). *)
+Theorem C07_hooks_sigusr1_valid_succeeds :
+  forall s c, hc_sig c = true -> hc_fate c = 0 -> nodupb (hc_names c) = true -> snd (hreload s c) = true.
+Proof. exact hreload_sig_valid_succeeds. Qed.
+Print Assumptions C07_hooks_sigusr1_valid_succeeds.
+
+Example C07_hooks_sigusr1_valid_succeeds_nonvacuous :
+  snd (hreload (hinit [0; 1]) {| hc_sig := true; hc_names := [1; 0]; hc_fate := 0 |}) = true.
+Proof. vm_compute. reflexivity. Qed.
+
+(* Instance.Restart called directly purges nothing: a successful reload ADDS the new hooks. *)
+Theorem C07_hooks_direct_restart_keeps_old :
+  forall s c, hc_sig c = false -> snd (hreload s c) = true ->
+  hs_reg (fst (hreload s c)) = hs_reg s ++ map (fun x => (x, S (hs_calls s))) (hc_names c)
+  /\ hs_cur (fst (hreload s c)) = S (hs_calls s).
+Proof. exact hreload_ok_direct. Qed.
+Print Assumptions C07_hooks_direct_restart_keeps_old.
+
+Example C07_hooks_direct_restart_keeps_old_nonvacuous :
+  snd (hreload (hinit [0]) {| hc_sig := false; hc_names := [2]; hc_fate := 0 |}) = true.
+Proof. vm_compute. reflexivity. Qed.
+
+(* "only the configuration in force has hooks registered" is therefore FALSE of the code for
+   direct Restart calls (hooks of a stopped generation keep receiving events); the strongest
+   true statements are C07_hooks_owned_by_started (all paths) and
+   C07_hooks_sigusr1_exactly_current (handler path). *)
+Theorem C07_hooks_only_current_refuted :
+  exists names0 cs p, In p (hs_reg (hrun (hinit names0) cs)) /\ snd p <> hs_cur (hrun (hinit names0) cs).
+Proof. exact hooks_only_current_refuted. Qed.
+Print Assumptions C07_hooks_only_current_refuted.
+
+Theorem C07_hooks_only_current_partial :
+  forall names0 cs p, In p (hs_reg (hrun (hinit names0) cs)) ->
+  In (snd p) (hs_okg (hrun (hinit names0) cs)) /\
+  (forallb hc_sig cs = true -> snd p = hs_cur (hrun (hinit names0) cs)).
+Proof. exact hooks_only_current_partial. Qed.
+Print Assumptions C07_hooks_only_current_partial.
+
+(* The InstanceRestartEvent the handler emits comes AFTER purgeEventHooks: in no history does any
+   hook receive it (the code as it is; stated so that a change of that order shows up). *)
+Theorem C07_restart_event_reaches_no_hook :
+  forall names0 cs, Forall (fun r => r = []) (hs_emit (hrun (hinit names0) cs)).
+Proof. exact restart_event_reaches_no_hook. Qed.
+Print Assumptions C07_restart_event_reaches_no_hook.
+
+(* ---------------------------------------------------------------------------------------------
+   Generations.  A connection is only ever taken by the generation in force or by the one being
+   started by a valid configuration, and that generation serves the connection's address. *)
+Theorem C07_accept_only_by_live_generation :
+  forall s k i s', reachable s -> step s (LAccept k i) = Some s' ->
+  exists c, nth_error (conns s) k = Some c /\ cst c = CQueued /\ In (caddr c) (addrs_of s i) /\
+            (i = cur s \/ pending s = Some i /\ fate_of s i = 0).
+Proof. exact accept_only_by_live. Qed.
+Print Assumptions C07_accept_only_by_live_generation.
+
+Example C07_accept_only_by_live_generation_nonvacuous :
+  exists s s', reachable s /\ step s (LAccept 0 1) = Some s' /\ cur s = 0 /\ pending s = Some 1.
+Proof.
+  destruct (run (init [0] []) [LNew 0 0; LConnect 0; LCall [0] 0; LLoadOk; LCbOk; LDup; LAdv; LSpawn]) as [s|] eqn:E;
+    [|vm_compute in E; discriminate].
+  exists s. eexists. split; [exists [0], []; eexists; split; [reflexivity|exact E]|].
+  vm_compute in E. injection E as <-. vm_compute. repeat split; reflexivity.
+Qed.
+
+(* The generation in force only moves forward, and once a generation has been replaced (its Stop
+   has completed: a later one is in force) it never again has an acceptor or a descriptor of any
+   listening socket, whatever reloads and requests follow: it takes no connection after that. *)
+Theorem C07_generation_in_force_monotone :
+  forall ls s s', reachable s -> run s ls = Some s' -> cur s <= cur s'.
+Proof. exact cur_monotone. Qed.
+Print Assumptions C07_generation_in_force_monotone.
+
+Theorem C07_stopped_generation_never_accepts_again :
+  forall s i ls s' a, reachable s -> i < cur s -> run s ls = Some s' ->
+  ~ In i (acc s' a) /\ ~ In i (fdh s' a).
+Proof. exact stopped_never_accepts_again. Qed.
+Print Assumptions C07_stopped_generation_never_accepts_again.
+
+(* "No generation ANSWERS after its Stop has completed" is false of the code: a connection the
+   old server holds beyond the graceful timeout stays with it and is answered by the OLD
+   configuration after the successful return (Shutdown's context expires; nothing kills the
+   connection).  Witness: the drain-timeout schedule; the old generation has no acceptor left. The
+   strongest true statements: C07_stopped_generation_never_accepts_again (it takes nothing new),
+   C07_each_conn_one_instance / C07_after_return_new_config (what it answers it had accepted
+   while it was live, at an address it served). *)
+Theorem C07_no_answer_after_stop_refuted :
+  exists s k c i s', reachable s /\ rst s = RIdle /\ nth_error (conns s) k = Some c /\ cst c = CAccepted i /\
+                     i <> cur s /\ acc s (caddr c) = [cur s] /\ step s (LAnswer k) = Some s'.
+Proof. exact no_answer_after_stop_refuted. Qed.
+Print Assumptions C07_no_answer_after_stop_refuted.
+
+Theorem C07_no_answer_after_stop_partial :
+  forall s i ls s' a k c, reachable s -> i < cur s -> run s ls = Some s' ->
+  (~ In i (acc s' a) /\ ~ In i (fdh s' a)) /\
+  (nth_error (conns s') k = Some c -> accepted_by (cst c) = Some i ->
+   cborn c <= i /\ In (caddr c) (addrs_of s' i)).
+Proof. exact no_answer_after_stop_partial. Qed.
+Print Assumptions C07_no_answer_after_stop_partial.
